@@ -182,7 +182,8 @@ theorem emitsAt_enableOp (env : Env) (s : State) : EmitsAt (enableOp env) [.enab
   emitsAt_subOp (by intro o ho hn; cases o <;> simp_all [ctrlErr, errOf]) s
 theorem emitsAt_disableOp (env : Env) (s : State) : EmitsAt (disableOp env) [.disable] s :=
   emitsAt_subOp (by intro o ho hn; cases o <;> simp_all [ctrlErr, errOf]) s
-theorem emitsAt_loopStartOp (env : Env) (s : State) : EmitsAt (loopStartOp env) [.loopStart] s :=
+theorem emitsAt_loopStartOp (env : Env) (cap : Nat) (s : State) :
+    EmitsAt (loopStartOp env cap) [.loopStart] s :=
   emitsAt_subOp (by intro o ho hn; simp [errOf]) s
 theorem emitsAt_loopStopOp (env : Env) (s : State) : EmitsAt (loopStopOp env) [.loopStop] s :=
   emitsAt_subOp (by intro o ho hn; simp [errOf]) s
@@ -212,7 +213,7 @@ theorem emitsAt_loadContext (env : Env) (s : State) : EmitsAt (loadContext env) 
   · exact emitsAt_throw (by simp [Logical]) [] s'
 
 /-- the part of `start_streaming` after the three guards -/
-theorem emitsAt_startBody (env : Env) (s : State) :
+theorem emitsAt_startBody (env : Env) (cap : Nat) (s : State) :
     EmitsAt (do
       enableOp env
       let x ← paramsCtxt
@@ -220,7 +221,7 @@ theorem emitsAt_startBody (env : Env) (s : State) :
       lockSetOp env 1
       expectNode x.startOk
       acqStartOp env
-      loopStartOp env) startSeq s := by
+      loopStartOp env cap) startSeq s := by
   refine emitsAt_bind' (l1 := [.enable]) (l2 := [.lockSet 1, .acqStart, .loopStart]) rfl
     (emitsAt_enableOp env s) (fun _ s1 => ?_)
   refine emitsAt_bind' (l1 := []) (l2 := [.lockSet 1, .acqStart, .loopStart]) rfl
@@ -232,7 +233,7 @@ theorem emitsAt_startBody (env : Env) (s : State) :
   refine emitsAt_bind' (l1 := []) (l2 := [.acqStart, .loopStart]) rfl
     (emitsAt_expectNode _ s4) (fun _ s5 => ?_)
   exact emitsAt_bind' (l1 := [.acqStart]) (l2 := [.loopStart]) rfl
-    (emitsAt_acqStartOp env s5) (fun _ s6 => emitsAt_loopStartOp env s6)
+    (emitsAt_acqStartOp env s5) (fun _ s6 => emitsAt_loopStartOp env cap s6)
 
 theorem emitsAt_startStreaming (env : Env) (cap : Nat) (s : State) :
     EmitsAt (startStreaming env cap) (expectedSubs (.start cap) s.dev) s := by
@@ -253,7 +254,7 @@ theorem emitsAt_startStreaming (env : Env) (cap : Nat) (s : State) :
           simp [h1, h2, h3]
         rw [hc]
         simp only [h1, h2, h3, if_false]
-        exact emitsAt_startBody env s
+        exact emitsAt_startBody env cap s
 
 /-- the part of `stop_streaming` after the guard -/
 theorem emitsAt_stopBody (env : Env) (s : State) :
@@ -884,14 +885,15 @@ theorem ex_expectNode {d0 : Dev} (b : Bool) :
   exact triple_ite (fun _ => triple_pure (fun _ h => h)) (fun _ => triple_throw (fun _ _ => trivial))
 
 /-- device state after a successful `start_streaming` -/
-def startedDev (d : Dev) : Dev :=
+def startedDev (d : Dev) (cap : Nat) : Dev :=
   { d with enabled := true, lock := 1, acquiring := true, loopFlag := true, loops := d.loops + 1,
+           chan := some (cap, DEFAULT_BUFFER_CAP),
            cache := { d.cache with lock := true, start := true } }
 
 /-- device state after a successful `stop_streaming` of a running loop -/
 def stoppedDev (d : Dev) : Dev :=
   { d with enabled := false, lock := 0, acquiring := false,
-           loopFlag := decide (0 < d.loops - 1), loops := d.loops - 1,
+           loopFlag := decide (0 < d.loops - 1), loops := d.loops - 1, chan := none,
            cache := { d.cache with lock := true, stop := true } }
 
 theorem triple_false {α : Type} {P : State → Prop} {m : M α} {Q : α → State → Prop}
@@ -900,7 +902,7 @@ theorem triple_false {α : Type} {P : State → Prop} {m : M α} {Q : α → Sta
 
 theorem exact_startStreaming (env : Env) (cap : Nat) (d : Dev) :
     Triple (fun s => s.dev = d) (startStreaming env cap)
-      (fun _ s => s.dev = startedDev d ∧ d.loopFlag = false ∧ d.ctxt ≠ none ∧ cap ≠ 0)
+      (fun _ s => s.dev = startedDev d cap ∧ d.loopFlag = false ∧ d.ctxt ≠ none ∧ cap ≠ 0)
       (fun _ => True) := by
   unfold startStreaming
   apply triple_getDev_bind
